@@ -142,12 +142,24 @@ type runResult struct {
 }
 
 func runCrd(stdin []byte, timeout time.Duration, args ...string) runResult {
-	cmd := exec.Command(crdBin, args...)
+	return runCrdEnv(stdin, timeout, "", args...)
+}
+
+// runCrdEnv runs the real binary, optionally with GOMAXPROCS set for the child
+func runCrdEnv(stdin []byte, timeout time.Duration, procs string, args ...string) runResult {
+	return runBinEnv(crdBin, stdin, timeout, procs, args...)
+}
+
+func runBinEnv(bin string, stdin []byte, timeout time.Duration, procs string, args ...string) runResult {
+	cmd := exec.Command(bin, args...)
 	cmd.Stdin = bytes.NewReader(stdin)
 	var so, se bytes.Buffer
 	cmd.Stdout = &so
 	cmd.Stderr = &se
 	cmd.Env = append(os.Environ(), "GOMEMLIMIT=512MiB")
+	if procs != "" {
+		cmd.Env = append(cmd.Env, "GOMAXPROCS="+procs)
+	}
 	must(cmd.Start())
 	done := make(chan error, 1)
 	go func() { done <- cmd.Wait() }()
